@@ -3,9 +3,12 @@
 //! writes DIR/cases.txt (one case per line, fed to the Lean driver), DIR/impl.txt (the
 //! implementation's canonicalised answer per line) and DIR/summary.json (oracle verdicts,
 //! input distribution).
+mod c01;
+mod c08;
 mod c17;
 mod common;
 mod dict;
+mod world;
 
 use common::*;
 
@@ -32,6 +35,8 @@ fn main() {
     std::panic::set_hook(Box::new(|_| {}));
     let mut run = Run::new(&prop, &opts);
     match prop.as_str() {
+        "C01" => c01::run(&mut run),
+        "C08" => c08::run(&mut run),
         "C17" => c17::run(&mut run),
         _ => { eprintln!("unknown property {}", prop); std::process::exit(2); }
     }
